@@ -1,6 +1,7 @@
 package checks
 
 import (
+	"bufio"
 	"bytes"
 	"errors"
 	"fmt"
@@ -25,7 +26,7 @@ func init() { register(c10{}) }
 func (c10) ID() string    { return "C10" }
 func (c10) Level() string { return "fault_enumeration" }
 func (c10) Rule() string {
-	return "packets of the C01 domain plus malformed-but-constructible ones (QoS 3, no filters, no topic, zero packet id, will QoS 3) x writers: succeeding; re-entrant (the writer encodes other packets inside Write); failing before writing (0,E); accepting only the first k bytes then (k,E) for EVERY k below the frame length when the frame is <= 256 bytes (boundary and log-spaced k above), and k = frame length (everything accepted, error reported all the same). Offline check of the recorded Write calls: bytes handed to the writer form exactly one frame (reference header parser), returned n = bytes accepted = frame length = 1+|remaining length field|+remaining length = N of String()'s 'N bytes'; with a failing writer the returned error is the writer's (errors.Is) and n the bytes it accepted; Undefined writes nothing and returns an error. distinct = (packet signature, writer script); non-trivial = optional field present or failing writer"
+	return "packets of the C01 domain plus malformed-but-constructible ones (QoS 3, no filters, no topic, zero packet id, will QoS 3) x writers: succeeding; re-entrant (the writer encodes other packets inside Write); the caller's own *bufio.Writer, healthy and carrying the error of an earlier failed flush; failing before writing (0,E); accepting only the first k bytes then (k,E) for EVERY k below the frame length when the frame is <= 256 bytes (boundary and log-spaced k above), and k = frame length (everything accepted, error reported all the same). Offline check of the recorded Write calls: bytes handed to the writer form exactly one frame (reference header parser), returned n = bytes accepted = frame length = 1+|remaining length field|+remaining length = N of String()'s 'N bytes'; with a failing writer the returned error is the writer's (errors.Is) and n the bytes it accepted; Undefined writes nothing and returns an error. distinct = (packet signature, writer script); non-trivial = optional field present or failing writer"
 }
 func (c10) Assumptions() []string {
 	return []string{"writers obey io.Writer: a short write comes with a non-nil error", "string fields avoid the substring ' bytes' so that the size printed by String() parses unambiguously"}
@@ -195,6 +196,41 @@ func (c10) Run(c *run.Ctx, phase, idx int) {
 					det(map[string]interface{}{"expected": hexClip(frame, 512), "received": hexClip(rw.Buf, 512)}))
 				break
 			}
+		}
+	}
+
+	// the caller's own *bufio.Writer: healthy (bytes after Flush = the frame),
+	// and one that already carries the error of an earlier failed flush
+	{
+		under := mon.NewWriter()
+		bw := bufio.NewWriterSize(under, gen.Pick(r, 16, 512, 4096, 65536))
+		var n3 int64
+		var err3 error
+		pan := mon.Guard(func() { n3, err3 = pkt.WriteTo(bw) })
+		ferr := bw.Flush()
+		c.Eval(1)
+		c.Count("writer", "bufio", 1)
+		if pan != nil || err3 != nil || ferr != nil || int(n3) != len(frame) || !bytes.Equal(under.Buf, frame) {
+			c.Violation("C10/bufio-writer/"+T, fmt.Sprintf("through a bufio.Writer: n=%d err=%v flush=%v panic=%v, %d bytes reached the underlying writer (frame %d)", n3, err3, ferr, pan != nil, len(under.Buf), len(frame)), det(nil))
+		}
+		broken := &mon.RecordingWriter{FailAt: 0, Err: mon.ErrInjected}
+		bw2 := bufio.NewWriterSize(broken, 4096)
+		bw2.Write(make([]byte, 5000)) // forces a flush, which fails: the error sticks
+		var n4 int64
+		var err4 error
+		pan = mon.Guard(func() { n4, err4 = pkt.WriteTo(bw2) })
+		c.Eval(1)
+		c.Distinct(h0^run.Hash64("bufio-sticky", twist), true)
+		c.Count("writer", "bufio-sticky-error", 1)
+		switch {
+		case pan != nil:
+			c.Violation("C10/bufio-sticky/panic/"+T, "WriteTo panicked on a bufio.Writer carrying an error: "+pan.String(), det(nil))
+		case err4 == nil:
+			c.Violation("C10/bufio-sticky/error-swallowed/"+T, fmt.Sprintf("the bufio.Writer refuses every byte (earlier flush failed) but WriteTo returned n=%d err=nil", n4), det(nil))
+		case !errors.Is(err4, mon.ErrInjected):
+			c.Violation("C10/bufio-sticky/error-replaced/"+T, fmt.Sprintf("WriteTo returned %v, not the writer's error", err4), det(nil))
+		case n4 != 0:
+			c.Violation("C10/bufio-sticky/count/"+T, fmt.Sprintf("the writer accepted nothing, WriteTo returned n=%d", n4), det(nil))
 		}
 	}
 
